@@ -104,7 +104,7 @@ def sites(prog):
                 def f(p, path=path):
                     _get(p, path)["cond"] = lit("si", 1)
                 yield ("non-boolean-condition", "filter of a collect form", f)
-        if e in ("for", "forin") and node.get("filt") and node["filt"].get("e") != "none":
+        if e in ("for", "forin", "pfor") and node.get("filt") and node["filt"].get("e") != "none":
             def f(p, path=path):
                 _get(p, path)["filt"] = lit("si", 1)
             yield ("non-boolean-condition", "filter of a loop", f)
